@@ -12,7 +12,7 @@ from .tokdiff import run_tok_job, finish_tok
 from .corpus import CORPUS
 
 PROP = "C09"
-GRAMMARS = ["p1", "p2", "p3", "p4", "p5", "g1", "c1", "v3"]
+GRAMMARS = ["p1", "p2", "p3", "p4", "p5", "p6", "g1", "c1", "v3"]
 
 
 class Oracle(C01.Oracle):
